@@ -501,7 +501,11 @@ func loadFindings() {
 	if root == "" {
 		root = "/verif"
 	}
-	b, err := os.ReadFile(filepath.Join(root, "known_findings.json"))
+	path := filepath.Join(root, "known_findings.json")
+	if p := os.Getenv("VERIF_FINDINGS_FILE"); p != "" {
+		path = p // probe collection only: treat recorded findings as unknown so that they are saved as cases
+	}
+	b, err := os.ReadFile(path)
 	if err != nil {
 		return
 	}
@@ -719,4 +723,41 @@ func StdMinimize(t *testing.T, id string, m Minimizers) {
 	if err := os.WriteFile(out, doc, 0o644); err != nil {
 		t.Fatal(err)
 	}
+}
+
+// KnownCaseProbes builds probes from saved cases: dir/<finding-id>.json (replay-file format)
+// reproduces while check still returns a failing verdict for it.
+func KnownCaseProbes(dir string, check func(part string, raw json.RawMessage) Verdict) Probes {
+	out := Probes{}
+	files, _ := filepath.Glob(filepath.Join(dir, "*.json"))
+	sort.Strings(files)
+	for _, f := range files {
+		id := strings.TrimSuffix(filepath.Base(f), ".json")
+		file := f
+		out[id] = ProbeDef{Input: "saved case " + filepath.Base(f), Fn: func() string {
+			rf, err := LoadReplay(file)
+			if err != nil {
+				return ""
+			}
+			v := check(rf.Part, rf.Case)
+			if v.Msg == "" {
+				return ""
+			}
+			first := strings.SplitN(v.Msg, "\n", 2)[0]
+			if len(first) > 300 {
+				first = first[:300]
+			}
+			return first
+		}}
+	}
+	return out
+}
+
+// CheckRaw decodes a raw case and runs the part's check (for KnownCaseProbes).
+func (p Part[C]) CheckRaw(raw json.RawMessage) Verdict {
+	var c C
+	if err := json.Unmarshal(raw, &c); err != nil {
+		return OK
+	}
+	return p.Check(c, NewRec())
 }
